@@ -44,6 +44,9 @@ pub fn profile() -> Profile {
     p.unused_structs = (0, 1);
     p.vin_as_storage = 3;
     p.keyword_names = 1;
+    p.overrides = 3;
+    p.ov_sized_array = 5;
+    p.struct_helpers = 2;
     p
 }
 
